@@ -86,6 +86,9 @@ func buildInt(c *intCase) *type1.Font {
 			}
 			g.ClosePath()
 			f.Glyphs[fmt.Sprintf("d%d", i)] = g
+			// the same glyph under a second name, with other glyphs between
+			// the two in every order of names
+			f.Glyphs[fmt.Sprintf("zd%d", i)] = g
 		}
 	case "width":
 		for i, v := range c.Values {
@@ -94,6 +97,10 @@ func buildInt(c *intCase) *type1.Font {
 				g.WidthY = float64(v)
 			}
 			f.Glyphs[fmt.Sprintf("w%d", i)] = g
+			if i%9 == 4 {
+				// the same glyph under a second name that sorts elsewhere
+				f.Glyphs[fmt.Sprintf("a%dw", i)] = g
+			}
 		}
 	case "stem":
 		for i := 0; i < len(c.Values); i += 200 {
@@ -275,7 +282,7 @@ func sweepValues() []int32 {
 func TestP1Integers(t *testing.T) {
 	rec := ev.New("C20", "integers")
 	defer rec.Finish(t)
-	rec.Rule("integers as coordinate deltas (chains of +v/-v lines and curves so that positions stay small), advance widths (one glyph per value, WidthX and WidthY) and stem values (200 stems per glyph, and one glyph per value with one to four stems per direction: single stems, pairs, triples with equal outer widths and evenly spaced centres - ascending or with one pair stored upper edge first - and such a triple after or before a fourth stem): -70,000..70,000 (every 7th value in quick, every value in thorough), all number-format boundaries and powers of two +-3 over the whole int32 range. Each font is decoded by type1.Read (exact equality with the original) and by the independent decoder, which also checks the byte form of every number (1 byte for |v| <= 107, 2 bytes up to 1131, else 5) and that no integer is written as a quotient. Non-trivial: every (kind, value) once.")
+	rec.Rule("integers as coordinate deltas (chains of +v/-v lines and curves so that positions stay small), advance widths (one glyph per value, WidthX and WidthY; every ninth glyph, and every delta glyph, also under a second name) and stem values (200 stems per glyph, and one glyph per value with one to four stems per direction: single stems, pairs, triples with equal outer widths and evenly spaced centres - ascending or with one pair stored upper edge first - and such a triple after or before a fourth stem): -70,000..70,000 (every 7th value in quick, every value in thorough), all number-format boundaries and powers of two +-3 over the whole int32 range. Each font is decoded by type1.Read (exact equality with the original) and by the independent decoder, which also checks the byte form of every number (1 byte for |v| <= 107, 2 bytes up to 1131, else 5) and that no integer is written as a quotient. Non-trivial: every (kind, value) once.")
 	vals := sweepValues()
 	const chunk = 6000
 	k := 0
